@@ -1,4 +1,4 @@
-"""C12 -- closing and reopening a project loses nothing (writer/reader agreement R12.1-R12.13)."""
+"""C12 -- closing and reopening a project loses nothing (writer/reader agreement R12.1-R12.14)."""
 from __future__ import annotations
 
 import ast
@@ -23,6 +23,7 @@ EXPLANATION = (
     ' R12.12 (=R11.9): saved history slots come back in the saved order and into the list they were written from.'
     ' R12.13: a reloaded create/remove change gets a Folder exactly when the saved folder flag is set.'
 )
+EXPLANATION += ' R12.14: a change kind that can hold a folder saves the kind and is reloaded with it.'
 ASSUMPTIONS = ["taint is flow-insensitive with control dependence on if-tests", "json.dumps/loads behave as documented"]
 
 
@@ -140,6 +141,7 @@ def check(ctx, res) -> None:
 
     history_order_rule(ctx, res, "R12.12")
     _resource_kind_rule(ctx, res)
+    _kind_is_saved_rule(ctx, res)
 
 
 def _resource_kind_rule(ctx, res) -> None:
@@ -744,3 +746,32 @@ def _save_is_unconditional(ctx, res) -> None:
             "with a rope folder every normal path of write_data dumps the data" if not skipping else
             f"write_data can return without dumping although the project has a rope folder (tests on the way: {tests[:2]}): data that changed in place since it was "
             "read -- the object database is the very dict read_data returned -- compares equal to the remembered object and is never saved", function=wd.qualname)
+
+
+def _kind_is_saved_rule(ctx, res) -> None:
+    """R12.14: a Resource is a path AND a kind (File / Folder); containment, equality and the dependency closure of undo depend on
+    the kind.  A change class that can hold a folder -- its own code asks `is_folder()` or builds with `get_folder` -- must
+    come back from the saved data with the same kind: its reader (`DataToChange.make<K>`) chooses `get_folder` /
+    `get_file` by a saved flag (R12.13 then decides that the flag is used the right way round), and its writer stores one
+    (`is_folder()` in the returned tuple).  A reader that always calls `get_file` turns a saved folder move into a file move."""
+    idx = ctx.idx
+    w = idx.need_class("rope.base.change.ChangeToData")
+    r = idx.need_class("rope.base.change.DataToChange")
+    n = 0
+    for c in common.change_classes(idx):
+        own = [m.node for m in c.methods.values()]
+        handles_folders = any(isinstance(x, ast.Call) and call_name(x) in ("is_folder", "get_folder") for fn in own for x in ast.walk(fn))
+        wm, rm = w.methods.get("convert" + c.name), r.methods.get("make" + c.name)
+        if not handles_folders or wm is None or rm is None:
+            continue
+        n += 1
+        reader_chooses = any(call_name(x) == "get_folder" for x in calls_in(common.inlined(idx, rm))) and any(call_name(x) == "get_file" for x in calls_in(common.inlined(idx, rm)))
+        writer_saves = any(isinstance(x, ast.Call) and call_name(x) == "is_folder" for x in ast.walk(common.inlined(idx, wm)))
+        ok = reader_chooses and writer_saves
+        res.add("R12.14", f"{c.name}|kind-saved-and-restored", ok, rm.where,
+                "the kind of the resource is saved and the reader rebuilds a Folder or a File accordingly" if ok else
+                f"{c.name} can hold a folder, but " + ("its saved form has no kind flag" if not writer_saves else "") + (" and " if not writer_saves and not reader_chooses else "") +
+                (f"make{c.name} always rebuilds the resource with get_file" if not reader_chooses else "") +
+                ": after closing and reopening the project a folder move is a change of File objects -- `File('pkg')` contains nothing and equals no Folder, so a selective "
+                "undo of the move no longer takes the edits inside the folder along and leaves a tree that never existed", function=rm.qualname)
+    res.floor("R12.14", "change kinds that can hold a folder", n, 1)
